@@ -1,17 +1,17 @@
 (* C18: extraction of the container models (ExtrOcamlBasic only; numbers stay the extracted positive/N/Z) *)
 From Coq Require Extraction ExtrOcamlBasic.
-From Verif Require Import Containers.BitVecModel Containers.ArenaModel Containers.VecModel Containers.StrModel Containers.HashModel Containers.TreeModel Containers.TreeGeneral Containers.TreeAgreeModel Containers.ArenaChainAgreeModel Containers.ListModel Containers.RangeIterModel Containers.BitSetModel.
+From Verif Require Import Containers.BitVecModel Containers.ArenaModel Containers.VecModel Containers.StrModel Containers.HashModel Containers.NameHashModel Containers.TreeModel Containers.TreeGeneral Containers.TreeAgreeModel Containers.ArenaChainAgreeModel Containers.ListModel Containers.RangeIterModel Containers.BitSetModel.
 From VerifGen Require Import C18HashTable C18VecTable.
 Extraction Blacklist List String Int.
 Extraction "containers.ml"
   bv_get bv_set bv_or_bit bv_xor_bit bv_fill bv_clear bv_index_of
-  arena_init alloc_oneshot alloc_reusable free_reusable arena_reset arena_stats cur_block arena_dup arena_string_set
+  arena_init alloc_oneshot alloc_reusable free_reusable arena_reset arena_stats cur_block arena_dup arena_sformat arena_string_set
   vec_empty vec_abs vec_reserve_fit vec_reserve_grow vec_reserve_additional vec_resize vec_append vec_insert vec_concat
   reserve_shape release_shape vec_remove_at vec_pop vec_clear vec_truncate vec_release vec_index_of vec_last_index_of
   str_empty str_tmp str_abs str_nul_ok str_assign str_op_text str_op_char str_op_chars str_pad_end str_op_number str_op_hex
   str_op_format str_truncate str_clear str_reset str_equals
-  hash_empty hash_rehash hash_insert hash_remove hash_get hash_release hash_abs
-  tree_empty tree_insert tree_remove tree_get tree_shape tree_keys rb_valid tree_state_ok insert_agrees remove_agrees chain_scan_agrees
+  hash_empty hash_rehash hash_insert hash_remove hash_get hash_release hash_abs hash_name name_key name_node name_get
+  tree_empty tree_insert tree_remove tree_get tree_shape tree_keys rb_valid tree_state_ok single_rotate double_rotate hset hget insert_agrees remove_agrees chain_scan_agrees
   dlist_empty dl_add dl_insert dl_unlink dl_pop_first dl_pop dl_forward dl_backward pool_alloc pool_release
-  ranges bitset_empty bs_resize_pub bs_append bs_set_bit bs_bit_at bs_fill_bits bs_clear_bits bs_clear_all bs_fill_all bs_truncate bs_release
+  ranges bitset_empty bs_resize_pub bs_append bs_set_bit bs_bit_at bs_fill_bits bs_clear_bits bs_clear_all bs_fill_all bs_truncate bs_release bs_and bs_and_not bs_or bs_copy_from
   vec_grow_table hash_primes.
